@@ -75,13 +75,6 @@ func evalProp(
 	prop, ok := object.FindPropAlongProtos(recv, propHash)
 
 	if ok {
-		// NOTE: copy error object otherwise stacktrace is appended to the shared one
-		// (for example, abstract props of Either share a NotImplementedErr)
-		if err, ok := prop.(*object.PanErr); ok {
-			copied := *err
-			return &copied, false
-		}
-
 		return prop, false
 	}
 
